@@ -17,6 +17,12 @@ THEOREMS_BY_PROP = {
     "C16": [],
     "C17": [],
 }
+try:
+    from . import mpu_parts as _mpu
+    LEAN_MODULES_MPU = list(_mpu.LEAN_MODULES)
+    MPU_BY_PROP = dict(_mpu.THEOREMS_BY_PROP)
+except ImportError:
+    LEAN_MODULES_MPU, MPU_BY_PROP = [], {}
 # theorems added by the model's author after this table was written are picked up if mp_trace exports them
 try:
     for k, v in getattr(mp_trace, "THEOREMS_BY_PROP", {}).items():
@@ -30,8 +36,10 @@ except Exception:
 
 def parts(prop: str):
     ths = [T + t for t in THEOREMS_BY_PROP.get(prop, [])]
-    if not ths:
+    if not ths and not MPU_BY_PROP.get(prop):
         return []
+    if not ths:
+        return [_compose.Part("mpu", lambda ctx: None, None, theorems=MPU_BY_PROP[prop], modules=LEAN_MODULES_MPU)]
 
     def run(ctx):
         mp_trace.run_kt(ctx, prop, 150, 4000)
@@ -39,4 +47,7 @@ def parts(prop: str):
     def replay(ctx, payload):
         return mp_trace.replay_kt(payload.get("input", payload.get("case")))
 
-    return [_compose.Part("mp_kt", run, replay, theorems=ths, modules=LEAN_MODULES)]
+    out = [_compose.Part("mp_kt", run, replay, theorems=ths, modules=LEAN_MODULES)]
+    if MPU_BY_PROP.get(prop):
+        out.append(_compose.Part("mpu", lambda ctx: None, None, theorems=MPU_BY_PROP[prop], modules=LEAN_MODULES_MPU))
+    return out
